@@ -1324,7 +1324,19 @@ def str_parse_literal(ctx):
     b = ctx.ex.deref(ctx.st, ctx.args[0])
     if isinstance(b, Bytes) and b.conc is not None and all(concrete(x) is not None for x in b.conc):
         h, a = generic_args((ctx.dest_ty or '').strip())
-        okv = ctx.ex.fresh(ctx.st, a[0] if a else 'unknown', 'parsed')
+        ty = a[0] if a else 'unknown'
+        lit = bytes(concrete(x) for x in b.conc).decode('utf-8', 'replace')
+        m = re.match(r'^(\d+)\.(\d+)\.(\d+)\.(\d+):(\d+)$', lit)
+        if m and last_seg(ty) in ('TargetAddress', 'SocketAddr') and all(int(x) < 256 for x in m.groups()[:4]) and int(m.group(5)) < 65536:
+            ex = ctx.ex
+            ip = (int(m.group(1)) << 24) | (int(m.group(2)) << 16) | (int(m.group(3)) << 8) | int(m.group(4))
+            v4 = Agg('SocketAddrV4', {0: Agg('Ipv4Addr', {0: Int(BV(ip, 32), 32)}), 1: Int(BV(int(m.group(5)), 16), 16)})
+            sa = Agg('SocketAddr', {}, 0, {0: {0: v4}}, ex.si.enums['SocketAddr'])
+            if last_seg(ty) == 'SocketAddr':
+                return mk_result(ex, ok=sa)
+            vn = ex.si.enums['TargetAddress']
+            return mk_result(ex, ok=Agg('TargetAddress', {}, vn.index('SocketAddr'), {vn.index('SocketAddr'): {0: sa}}, vn))
+        okv = ctx.ex.fresh(ctx.st, ty, 'parsed')
         return mk_result(ctx.ex, ok=okv)
     return NotImplemented
 
